@@ -72,14 +72,15 @@ def undef_text(kind: str) -> str:
 _ENVS: dict[Any, Any] = {}
 
 
-def scope_env(undef: str, names: tuple[str, str], ebits: tuple[int, int]) -> Any:
-    key = ("scope", undef, names, ebits)
+def scope_env(undef: str, names: tuple[str, str], evals: tuple[int, int]) -> Any:
+    """``evals[j]``: 0 = names[j] is not an environment global, 1 = bound to 'E<name>', 2 = bound to nil."""
+    key = ("scope", undef, names, evals)
     env = _ENVS.get(key)
     if env is None:
         g: dict[str, Any] = {"zz": M.zz_global()}
-        for n, b in zip(names, ebits):
+        for n, b in zip(names, evals):
             if b:
-                g[n] = f"E{n}"
+                g[n] = f"E{n}" if b == 1 else None
         kw: dict[str, Any] = {"extra": True, "globals": g, "loader": ProgLoader()}
         if undef == "marker":
             kw["undefined"] = MarkerUndefined
@@ -102,6 +103,7 @@ CONFIGS: dict[str, list[int]] = {
     "four": [0, 15, 6, 9],
     "three": [0, 15, 6],
     "two": [0, 15],
+    "m15": [15],
     "pair01": [0, 1],  # nothing / render argument only for v (w: render argument + env global / env global): one parse
 }
 NAME_SETS: dict[str, tuple[str, str]] = {
@@ -131,16 +133,22 @@ def loop_conflict(forest: M.Forest, names: tuple[str, str]) -> bool:
 
 
 def eval_scope(c: M.Compiled, names: tuple[str, str], mv: int, undef: str, load: str,
-               cache: Optional[dict[Any, Any]] = None) -> tuple[list[tuple[dict[str, Any], str]], dict[str, Any]]:
-    """Run one program under one layer configuration -> (violations, info)."""
+               cache: Optional[dict[Any, Any]] = None, nil_layer: Optional[tuple[int, str]] = None,
+               tolerant: bool = False) -> tuple[list[tuple[dict[str, Any], str]], dict[str, Any]]:
+    """Run one program under one layer configuration -> (violations, info).
+
+    ``nil_layer`` = (name index, layer) binds that layer to nil.  ``tolerant``: the program raises break /
+    continue inside an included partial or a tablerow; how that ends the loop is not documented, so a render
+    that fails or whose probe sequence differs from the model's is excluded, not reported."""
     masks = (mv, w_mask(mv))
-    layers = M.layers_for(names, masks)
+    layers = M.layers_for(names, masks, nil_layer)
     ut = undef_text(undef)
-    env = scope_env(undef, names, (masks[0] >> 3 & 1, masks[1] >> 3 & 1))
+    evals = tuple((2 if nil_layer == (j, "E") else 1) if masks[j] >> 3 & 1 else 0 for j in (0, 1))
+    env = scope_env(undef, names, evals)  # type: ignore[arg-type]
     loader = env.loader
     loader.sources = dict(c.partials)
     loader.matter = {}
-    tkey = (masks[0] >> 1, masks[1] >> 1, undef, load)
+    tkey = (masks[0] >> 1, masks[1] >> 1, undef, load, nil_layer if nil_layer and nil_layer[1] != "R" else None)
     t = cache.get(tkey) if cache is not None else None
     if t is None:
         if load == "loader":
@@ -154,6 +162,7 @@ def eval_scope(c: M.Compiled, names: tuple[str, str], mv: int, undef: str, load:
     expected = M.interpret(c, layers, ut)
     per_api: dict[str, list[tuple[str, str, str, str]]] = {}
     stats: dict[str, int] = {}
+    excluded = 0
     for api in ("sync", "async"):
         if not t.ok:
             o = t
@@ -162,59 +171,120 @@ def eval_scope(c: M.Compiled, names: tuple[str, str], mv: int, undef: str, load:
         else:
             o = util.render_async(t.value, layers["R"])
         if not o.ok:
+            if tolerant and o.is_liquid_error:
+                excluded += 1
+                continue
             per_api[api] = [("no-error", o.error_class or "?", "-", f"{o[1]}: {o[2]}")]
             continue
-        per_api[api], stats = M.compare(expected, o.value, names, ut, c.probe_ctx)
+        bads, st = M.compare(expected, o.value, names, ut, c.probe_ctx)
+        if tolerant and bads and bads[0][0] == "output-shape":
+            excluded += 1
+            continue
+        per_api[api], stats = bads, st
     viols = []
     for clause, observed, ctx, api, text in merge_apis(per_api):
         sig = {"family": "scope", "clause": clause, "observed": observed, "ctx": ctx, "api": api}
         what = (f"{c.source} partials={c.partials} render_args={layers['R']} matter={layers['M']} "
                 f"template_globals={layers['T']} env_globals={layers['E']} -> {text} [{api}]")
         viols.append((sig, what))
-    info = {"clauses": M.clauses_of(expected), "stats": stats, "masks": masks}
+    info = {"clauses": M.clauses_of(expected), "stats": stats, "masks": masks, "excluded": excluded}
     return viols, info
 
 
-def scope_case(alpha: str, forest: M.Forest, nameset: str, mv: int, undef: str, load: str, c: M.Compiled) -> dict[str, Any]:
+def scope_case(alpha: str, forest: M.Forest, nameset: str, mv: int, undef: str, load: str, c: M.Compiled,
+               nil_ops: Any = (), nil_layer: Any = None) -> dict[str, Any]:
     masks = (mv, w_mask(mv))
     return {"family": "scope", "alpha": alpha, "forest": forest, "nameset": nameset, "mask_v": mv, "mask_w": masks[1],
-            "undef": undef, "load": load, "source": c.source, "partials": c.partials,
-            "layers": M.layers_for(NAME_SETS[nameset], masks)}
+            "undef": undef, "load": load, "nil_ops": sorted(nil_ops), "nil_layer": list(nil_layer) if nil_layer else None,
+            "source": c.source, "partials": c.partials,
+            "layers": M.layers_for(NAME_SETS[nameset], masks, tuple(nil_layer) if nil_layer else None)}
 
 
-def run_scope_job(res: Result, alpha: str, n: int, lo: int, hi: int, nameset: str, cfg: str, undef: str, load: str) -> None:
+def family_of(nameset: str) -> str:
+    return "scope" if nameset == "vw" else ("builtin" if nameset in ("now", "today") else "loopvar")
+
+
+_CROSSING: dict[tuple[str, int], list[M.Forest]] = {}
+
+
+def crossing_forests(alpha: str, n: int) -> list[M.Forest]:
+    """The forests in which a break / continue reaches its loop through an include (or the loop is a tablerow)."""
+    key = (alpha, n)
+    if key not in _CROSSING:
+        _CROSSING[key] = [f for f in M.forests(alpha, n) if M.interrupt_crosses(f)]
+    return _CROSSING[key]
+
+
+def run_scope_job(res: Result, alpha: str, n: int, lo: int, hi: int, nameset: str, cfg: str, undef: str, load: str,
+                  mode: str = "") -> None:
+    """mode '' = plain; 'cross' = only forests with an interrupt crossing an include / in a tablerow;
+    'nil' = every single nil-capable op in turn, all of them together, and every populated layer in turn binds
+    nil; 'nilops' = the op part of 'nil' only."""
     names = NAME_SETS[nameset]
-    fs = M.forests(alpha, n)
-    fam = "scope" if nameset == "vw" else ("builtin" if nameset in ("now", "today") else "loopvar")
+    fs = crossing_forests(alpha, n) if mode == "cross" else M.forests(alpha, n)
+    fam = family_of(nameset)
     for idx in range(lo, hi):
         forest = fs[idx]
         if nameset == "loop" and loop_conflict(forest, names):
             res.count("unspecified_excluded", len(CONFIGS[cfg]))
             res.count("excluded:loop_variable_named_like_its_loop_object", len(CONFIGS[cfg]))
             continue
-        c = M.compile_program(forest, names)
-        cache: dict[Any, Any] = {}
+        tolerant = M.interrupt_crosses(forest) if alpha in M.XBRK_ALPHAS else False
+        # variants: (nil op indexes, nil layers to run: None = no nil layer, "each" = every populated layer in turn)
+        variants: list[tuple[frozenset, bool]] = []
+        if mode in ("nil", "nilops"):
+            pos = M.nil_positions(forest)
+            variants = [(frozenset({k}), False) for k in pos]
+            if len(pos) > 1:
+                variants.append((frozenset(pos), False))
+            if mode == "nil":
+                variants.append((frozenset(), True))
+        else:
+            variants = [(frozenset(), False)]
         res.count("programs")
-        for mv in CONFIGS[cfg]:
-            viols, info = eval_scope(c, names, mv, undef, load, cache)
-            st = info["stats"]
-            res.count("renders", 2)
-            res.count("probe_values_compared", st.get("compared", 0))
-            if st.get("unspec"):
-                res.count("unspecified_excluded", st["unspec"])
-                res.count("excluded:probe_inside_macro_unspecified", st["unspec"])
-            if st.get("builtin"):
-                res.count("builtin_now_today_value_not_compared", st["builtin"])
-            nontrivial = [fam, alpha, forest, mv, undef, load] if st.get("shadowed") else None
-            label = f"{fam}:" + "+".join(sorted(info["clauses"])) + (":viol" if viols else ":ok")
-            sample = None
-            if idx == (lo + hi) // 2 and mv == CONFIGS[cfg][-1]:
-                sample = scope_case(alpha, forest, nameset, mv, undef, load, c)
-            res.case(nontrivial=nontrivial, outcome=label, sample=sample)
-            for sig, what in viols:
-                sig = {**sig, "family": fam}
-                res.violation(sig, what, scope_case(alpha, forest, nameset, mv, undef, load, c))
-        res.count("templates", len(cache))
+        for nil_ops, each_layer in variants:
+            c = M.compile_program(forest, names, nil_ops)
+            cache: dict[Any, Any] = {}
+            for mv in CONFIGS[cfg]:
+                masks = (mv, w_mask(mv))
+                nil_layers: list[Optional[tuple[int, str]]] = [None]
+                if each_layer:
+                    nil_layers = [(j, ly) for j in (0, 1) for i, ly in enumerate(M.LAYERS) if masks[j] >> i & 1]
+                for nl in nil_layers:
+                    viols, info = eval_scope(c, names, mv, undef, load, cache, nl, tolerant)
+                    st = info["stats"]
+                    res.count("renders", 2)
+                    res.count("probe_values_compared", st.get("compared", 0))
+                    if info["excluded"]:
+                        res.count("unspecified_excluded", info["excluded"])
+                        res.count("excluded:interrupt_through_include_or_tablerow_did_not_end_the_iteration", info["excluded"])
+                    if st.get("unspec"):
+                        res.count("unspecified_excluded", st["unspec"])
+                        res.count("excluded:probe_inside_macro_unspecified", st["unspec"])
+                    if st.get("builtin"):
+                        res.count("builtin_now_today_value_not_compared", st["builtin"])
+                    isnil = bool(nil_ops) or nl is not None
+                    if isnil:
+                        res.count("nil_binding_shadows_outer_binding", st.get("nil_shadows", 0))
+                        hit = st.get("nil_shadows")
+                    else:
+                        hit = st.get("shadowed")
+                    nontrivial = [fam, alpha, forest, mv, undef, load, sorted(nil_ops), nl] if hit else None
+                    label = (f"{fam}{'-nil' if isnil else ''}{'-cross' if tolerant else ''}:" + "+".join(sorted(info["clauses"]))
+                             + (":viol" if viols else ":ok"))
+                    sample = None
+                    if idx == (lo + hi) // 2 and mv == CONFIGS[cfg][-1] and nl == nil_layers[-1]:
+                        sample = scope_case(alpha, forest, nameset, mv, undef, load, c, nil_ops, nl)
+                    res.case(nontrivial=nontrivial, outcome=label, sample=sample)
+                    for sig, what in viols:
+                        sig = {**sig, "family": fam}
+                        if isnil:
+                            sig["nil"] = ("layer:" + nl[1]) if nl else "+".join(sorted({M.KIND_WORD[t[0]] for k, t in enumerate(
+                                M.iter_nodes(forest)) if k in nil_ops}))
+                        if tolerant:
+                            sig["interrupt"] = "through-include-or-tablerow"
+                        res.violation(sig, what, scope_case(alpha, forest, nameset, mv, undef, load, c, nil_ops, nl))
+            res.count("templates", len(cache))
 
 
 # ---------------------------------------------------------------------------
@@ -345,12 +415,12 @@ def plan(tier: str) -> list[tuple[int, tuple[Any, ...]]]:
     """[(cost, job)] covering the whole bounded space of the tier; cost ~ number of renders."""
     jobs: list[tuple[int, tuple[Any, ...]]] = []
 
-    def scope(alpha: str, n: int, nameset: str, cfg: str, undef: str, load: str, chunk: int) -> None:
-        total = len(M.forests(alpha, n))
-        per = len(CONFIGS[cfg]) * (1 + n)
+    def scope(alpha: str, n: int, nameset: str, cfg: str, undef: str, load: str, chunk: int, mode: str = "") -> None:
+        total = len(crossing_forests(alpha, n) if mode == "cross" else M.forests(alpha, n))
+        per = len(CONFIGS[cfg]) * (1 + n) * ({"nil": 6, "nilops": 3}.get(mode, 1))
         for lo in range(0, total, chunk):
             hi = min(total, lo + chunk)
-            jobs.append(((hi - lo) * per, ("scope", alpha, n, lo, hi, nameset, cfg, undef, load)))
+            jobs.append(((hi - lo) * per, ("scope", alpha, n, lo, hi, nameset, cfg, undef, load, mode)))
 
     quick = tier == "quick"
     for n in (0, 1, 2):
@@ -362,12 +432,18 @@ def plan(tier: str) -> list[tuple[int, tuple[Any, ...]]]:
         scope("two", n, "loop", "all16", "marker", "string", 150)
     for n in (1, 2, 3, 4):
         scope("brk", n, "vw", "pair01", "marker", "string", 600)
+    for n in (2, 3, 4):
+        scope("xbrk", n, "vw", "pair01", "marker", "string", 300, mode="cross")
+    for n in (1, 2):
+        scope("two", n, "vw", "all16", "marker", "string", 40, mode="nil")
     if quick:
         scope("one", 3, "vw", "all16", "marker", "string", 100)
+        scope("one", 3, "vw", "m15", "marker", "string", 600, mode="nilops")
         scope("two", 3, "vw", "pair01", "marker", "string", 600)
         scope("core", 4, "vw", "pair01", "marker", "string", 600)
     else:
         scope("two", 3, "vw", "all16", "marker", "string", 100)
+        scope("two", 3, "vw", "two", "marker", "string", 300, mode="nil")
         scope("two", 3, "vw", "four", "default", "loader", 400)
         scope("onef", 4, "vw", "all16", "marker", "string", 100)
         scope("core2", 4, "vw", "pair01", "marker", "string", 600)
@@ -403,7 +479,16 @@ class C14(Check):
         "core alphabet (assign, increment, for, tablerow, with, include kwarg, plain include, macro, capture "
         "block) x 2 subsets; all forests of <=4 ops over {assign, break, continue, for, with, if} (scopes left "
         "through an interrupt); the <=2-op forests again over the names now / today (user binding shadows the "
-        "built-in, built-in shadows a counter) and forloop / tablerowloop. thorough = 3 ops over {v,w} x 16 "
+        "built-in, built-in shadows a counter) and forloop / tablerowloop; every forest of <=4 ops over {assign, "
+        "break, continue, for, tablerow, with, include..with, include kwarg, plain include} in which a break / "
+        "continue reaches its loop through an included partial or sits in a tablerow (3006 forests) x 2 subsets "
+        "(compared when the interrupt ended the iteration as modelled, else excluded); nil bindings: on every "
+        "forest of <=2 ops over {v,w} x 16 subsets each nil-capable op in turn (assign nil, nil first loop item "
+        "of for / tablerow / include..for, with v: nil, include..with nil, include v: nil, macro argument nil), "
+        "all of them together, and each populated layer of v and of w in turn (render argument None, matter, "
+        "template global, environment global) binds nil; on every forest of 3 ops over v x all four layers "
+        "populated the op part again -- the innermost binding wins although it is nil (renders empty, not the "
+        "marker of undefined, not the outer value). thorough = 3 ops over {v,w} x 16 "
         "subsets, 4 ops over v (14 kinds) x 16 subsets, 4 ops over {v,w} on the core alphabet x 2 subsets. "
         "paths: root + 1..3 segments (thorough 4) over 22 segment forms x 8 roots x the four "
         "string_sequences/string_first_and_last settings. Non-trivial = a scope case in which at least one "
@@ -422,6 +507,9 @@ class C14(Check):
         "excluded and counted: a macro parameter re-assigned inside the macro body, visibility of the caller's "
         "counters inside a macro, `for forloop in` / `tablerow tablerowloop in`, .first/.last on a hash, "
         "negative index into a string; the value of the built-in now/today is never compared",
+        "nil renders as the empty string; whether a break/continue raised inside an included partial or a tablerow "
+        "ends the iteration is not documented: such renders are compared only when their probe sequence is the "
+        "model's (always the case on the current tree), otherwise excluded and counted",
         "front matter > template globals is documented in docs/render_context.md (Matter), so it is asserted",
     ]
 
@@ -433,7 +521,11 @@ class C14(Check):
                                          "all forests of 4 ops on the 9-kind core alphabet x 2 subsets"),
             "ops_one_name": ("all forests of 3 ops (13 kinds) x 16 subsets; all forests of 4 ops on the 9-kind core "
                              "alphabet x 2 subsets" if q else "all forests of 4 ops (14 kinds) x 16 subsets"),
-            "interrupts": "all forests of <=4 ops over {assign, break, continue, for, with, if} x 2 subsets",
+            "interrupts": "all forests of <=4 ops over {assign, break, continue, for, with, if} x 2 subsets; all forests of "
+            "<=4 ops over 9 kinds with a break/continue inside an included partial or a tablerow x 2 subsets",
+            "nil_bindings": "forests of <=2 ops x 16 subsets x (each nil-capable op, all ops, each populated layer of v / w); "
+            + ("forests of 3 ops over v x 1 subset x (each op, all ops)" if q else
+               "forests of 3 ops over {v,w} x 2 subsets x (each op, all ops, each layer)"),
             "builtin_and_loop_names": "all forests of <=2 ops x 16 subsets over (now,w), (today,w), (forloop,tablerowloop)"
             + ("" if q else "; 3 ops x 4 subsets"),
             "paths": f"root + 1..{3 if q else 4} segments, 22 segment forms, 8 roots, 4 flag settings (marker Undefined) "
@@ -473,11 +565,13 @@ class C14(Check):
         if case["family"] == "scope":
             names = NAME_SETS[case["nameset"]]
             forest = M.to_forest(case["forest"])
-            c = M.compile_program(forest, names)
+            nil_ops = frozenset(case.get("nil_ops") or ())
+            nl = tuple(case["nil_layer"]) if case.get("nil_layer") else None
+            c = M.compile_program(forest, names, nil_ops)
             print(f"template: {c.source}\npartials: {c.partials}\nlayers: {case.get('layers')}")
-            viols, _ = eval_scope(c, names, case["mask_v"], case["undef"], case["load"])
-            fam = "scope" if case["nameset"] == "vw" else ("builtin" if case["nameset"] in ("now", "today") else "loopvar")
-            out = [({**s, "family": fam}, w) for s, w in viols]
+            tolerant = M.interrupt_crosses(forest) if case["alpha"] in M.XBRK_ALPHAS else False
+            viols, _ = eval_scope(c, names, case["mask_v"], case["undef"], case["load"], None, nl, tolerant)
+            out = [({**s, "family": family_of(case["nameset"])}, w) for s, w in viols]
         elif case["family"] == "path":
             print(f"path: {case.get('path')}  data: {P.DATA}")
             out = eval_path_single(case["root"], tuple(case["segs"]), case["ss"], case["sfl"], case["undef"])
